@@ -15,7 +15,7 @@
                                     depths: any functions (which entry is chosen is property C20) *)
 From Coq Require Import List NArith ZArith Bool.
 From SNT Require Import Base.Outcome Encoder.Decimal Encoder.Utf8 Encoder.Encode Encoder.EncodeStream Encoder.EncodeOrig Encoder.VT
-  Encoder.VTProofs Encoder.Denote Encoder.EncodeProofs Encoder.EncodeMeaning Encoder.Color256 Encoder.EncodeC20.
+  Encoder.VTProofs Encoder.Denote Encoder.EncodeProofs Encoder.EncodeMeaning Encoder.Color256 Encoder.EncodeC20 Encoder.Term.
 Import ListNotations.
 Local Open Scope N_scope.
 
@@ -87,6 +87,25 @@ Theorem C05_stream_after_complete_prefix :
       vt_ops (pre ++ bs) = vt_ops pre ++ flat_map (denote pal256 gray4 cp) cs.
 Proof. exact c05_stream_thm. Qed.
 
+(*    ONE ENCODER OBJECT.  encode_stream_st threads the only mutable state a TTYEncoder has (the
+      scratch chunk buffer; no memo of what was sent before) through a list of commands.  From ANY
+      state of that buffer the output is the concatenation of the self-contained per-command
+      encodings; after any complete prefix it is read back as the commands' operations, and it
+      takes the terminal (Encoder/Term.v: keyboard level per screen, DEC modes, rendition, margins,
+      title, log of everything else) from ANY state t to the state the denotations lead to. *)
+Theorem C05_stream_one_encoder :
+  forall (pal256 gray4 : rgba -> N), (forall c, pal256 c < 256) ->
+  forall (cp : caps) (cs : list cmd) (s : enc_state),
+  forallb cmd_ok cs = true -> forallb (fun c => negb (is_raw c)) cs = true ->
+  exists bs s',
+    encode_stream_st pal256 gray4 cp s cs = Ok (bs, s') /\
+    encode_stream pal256 gray4 cp cs = Ok bs /\
+    forall pre, vt_complete pre = true ->
+      vt_ops (pre ++ bs) = vt_ops pre ++ flat_map (denote pal256 gray4 cp) cs /\
+      forall t : tstate,
+        run_ops t (vt_ops (pre ++ bs)) = run_ops (run_ops t (vt_ops pre)) (flat_map (denote pal256 gray4 cp) cs).
+Proof. exact c05_stream_one_encoder_thm. Qed.
+
 (*    (the general fact behind it, about the parser alone) *)
 Theorem C05_parser_concat :
   forall a b, vt_complete a = true -> vt_parse (a ++ b) = vt_parse a ++ vt_parse b.
@@ -137,7 +156,7 @@ Example C05_meaning_nonvacuous :
   cmd_ok (ScrollRegion 0 usize_max) = true /\
   cmd_ok (Termcap [[97; 1]; [0]]) = true /\
   cmd_ok (Title [104; 233; 8364; 128512; 59]) = true /\
-  cmd_ok (Face (mkFace (Some (mkRgba 1 2 3 0)) (Some (mkRgba 255 255 255 255)) 255)) = true /\
+  cmd_ok (Face (mkFace (Some (mkRgba 1 2 3 0)) (Some (mkRgba 255 255 255 255)) 253)) = true /\
   cmd_ok (Color (TPalette usize_max) (Some (mkRgba 1 2 3 128))) = true /\
   encode (fun _ => 16) (fun _ => 0) (mkCaps TrueColor false true) (CursorMove i32_min 1)
     = Ok [27; 91; 49; 67; 27; 91; 50; 49; 52; 55; 52; 56; 51; 54; 52; 56; 65] /\
@@ -156,6 +175,15 @@ Example C05_char_introducer_witnesses :
   cmd_ok (Char 27) = false /\ cmd_ok (Char 155) = false /\
   cmd_ok (Char 127) = true /\ cmd_ok (Char 133) = true /\ cmd_ok (Char 7) = true /\ cmd_ok (Char 156) = true /\
   cmd_ok (Termcap [[]]) = true /\ cmd_ok (Termcap []) = true.
+Proof. vm_compute. repeat split; reflexivity. Qed.
+
+(* a repeated keyboard level after a reset must be sent again: the terminal forgot it *)
+Example C05_one_encoder_nonvacuous :
+  encode_stream_st (fun _ => 16) (fun _ => 0) (mkCaps TrueColor false true) [[49]] [KeyboardLevel 5; Reset; KeyboardLevel 5]
+    = Ok ([27; 91; 61; 53; 117; 27; 99; 27; 91; 61; 53; 117], [[49]]) /\
+  ts_kbd_main (run_ops ts_dirty1 (vt_ops [27; 91; 61; 53; 117; 27; 99; 27; 91; 61; 53; 117])) = [5] /\
+  ts_kbd_main (run_ops ts_dirty1 (vt_ops [27; 91; 61; 53; 117; 27; 99])) = [] /\
+  same_final_state (vt_ops [27; 91; 61; 53; 117; 27; 99]) (vt_ops [27; 91; 61; 53; 117; 27; 99; 27; 91; 61; 53; 117]) = false.
 Proof. vm_compute. repeat split; reflexivity. Qed.
 
 (* ---------- the code before the `fix:` commits did NOT have the property ---------- *)
